@@ -16,7 +16,9 @@ RULE = ("random host programs over if_eq/ne/lt/ge/ez/nz (context and callback fo
         "programs EVERY subset of top-level flush points; 1-2 random measurement scripts per program, and for programs "
         "with at most 16 (quick) / 64 (thorough) outcome sequences EVERY outcome sequence. Each is run through SDK -> assemble -> bytes -> "
         "controller -> executor and compared with direct evaluation after every flush: applied operations, arrays, "
-        "registers, and every host handle created so far. Non-trivial = direct evaluation executed at least one "
+        "registers, and every host handle created so far."
+        ' A register-handle family measures again into existing RegFuture handles in the same and in later flush segments and branches on them. '
+        "Non-trivial = direct evaluation executed at least one "
         "conditional body or loop iteration and >= 2 subroutines or >= 12 operations; distinct = distinct (program, script).")
 ASSUMPTIONS = [
     "R-HOST gives the staged meaning of SDK host code (handles created once, operations per control-flow visit, arrays of a flush segment exist from its start)",
